@@ -301,25 +301,25 @@ func (e *Evaluator) evalExpr(expr Expr) (*Cell, error) {
 					e.stackTop.locals[k] = v
 				}
 
+				// the bindings' frame goes away however the body ends (value,
+				// error, break / continue / return / next out of a block body)
+				result := NewCell(NewValue(nil))
+				var bodyErr error
 				switch body := matchCase.Body.(type) {
 				case *StatementExpr:
-					val, err := e.evalExpr(body.Expr)
-					if err != nil {
-						return nil, err
-					}
-					return val, nil
+					result, bodyErr = e.evalExpr(body.Expr)
 				default:
-					err := e.evalStatement(body)
-					if err != nil {
-						return nil, err
-					}
+					bodyErr = e.evalStatement(body)
 				}
 
 				if err := e.popFrame(); err != nil {
 					return nil, err
 				}
 
-				return NewCell(NewValue(nil)), nil
+				if bodyErr != nil {
+					return nil, bodyErr
+				}
+				return result, nil
 			}
 		}
 		return NewCell(NewValue(nil)), nil
@@ -434,6 +434,13 @@ func (e *Evaluator) callFunction(exp *ExprCall, fn *Cell, args []*Value) (*Cell,
 		}
 
 		err := e.evalStatement(f.Body)
+
+		// the call's frame goes away however the body ends (also on next or
+		// an error passing through)
+		if err := e.popFrame(); err != nil {
+			return nil, err
+		}
+
 		var retVal *Value
 		if err == errReturn {
 			retVal = e.returnVal
@@ -441,10 +448,6 @@ func (e *Evaluator) callFunction(exp *ExprCall, fn *Cell, args []*Value) (*Cell,
 			return nil, err
 		} else {
 			retVal = nil
-		}
-
-		if err := e.popFrame(); err != nil {
-			return nil, err
 		}
 
 		if retVal != nil {
